@@ -90,6 +90,22 @@ func statusHandler(count *atomic.Int64) http.Handler {
 	})
 }
 
+// digitHandler is statusHandler with the server's digit in the last place of the status code.
+func digitHandler(count *atomic.Int64) http.Handler {
+	return http.HandlerFunc(func(w http.ResponseWriter, r *http.Request) {
+		count.Add(1)
+		st, _ := strconv.Atoi(r.Header.Get("X-Want"))
+		if st == 0 {
+			st = 200
+		}
+		if st >= 500 && (r.URL.Host == "stable" || r.URL.Host == "a") {
+			st = 200 // some backends never fail: ratings differ between servers
+		}
+		w.WriteHeader(st - st%10 + hostDigit[r.URL.Host])
+		_, _ = io.WriteString(w, "ok")
+	})
+}
+
 func request(op string) *http.Request {
 	// op = serve:<status>:<source>:<cookie>
 	parts := strings.Split(op, ":")
@@ -139,8 +155,15 @@ func poolOps(p interface {
 	return true
 }
 
-// ratioMeter is only ever called under the rebalancer's own mutex.
-type ratioMeter struct{ bad, all int }
+// hostDigit makes the last digit of a status code name the server that produced it.
+var hostDigit = map[string]int{"stable": 0, "stable2": 1, "a": 2, "b": 3, "c": 4, "d": 5, "e": 6}
+
+// foreignRecords counts outcomes that were recorded on the meter of another server.
+var foreignRecords atomic.Int64
+
+// ratioMeter is only ever called under the rebalancer's own mutex. It belongs to one server
+// for its whole life: every outcome recorded on it carries that server's digit.
+type ratioMeter struct{ bad, all, digit int }
 
 func (m *ratioMeter) Rating() float64 {
 	if m.all == 0 {
@@ -149,6 +172,11 @@ func (m *ratioMeter) Rating() float64 {
 	return float64(m.bad) / float64(m.all)
 }
 func (m *ratioMeter) Record(code int, _ time.Duration) {
+	if m.all == 0 {
+		m.digit = code % 10
+	} else if code%10 != m.digit {
+		foreignRecords.Add(1)
+	}
 	m.all++
 	runtime.Gosched() // a wide window: a caller that records outside the rebalancer's lock overlaps with another
 	if code >= 500 {
@@ -160,6 +188,11 @@ func (m *ratioMeter) IsReady() bool { return true }
 func newBalancer(rebalance bool) *instance {
 	var served atomic.Int64
 	h := statusHandler(&served)
+	if rebalance {
+		// the rebalancer's meters check that they only see their own server's outcomes
+		h = digitHandler(&served)
+		foreignRecords.Store(0)
+	}
 	rr, _ := roundrobin.New(h, roundrobin.EnableStickySession(roundrobin.NewStickySession("sid")))
 	_ = rr.UpsertServer(mustURL("http://stable"), roundrobin.Weight(2))
 	var front http.Handler = rr
@@ -188,6 +221,9 @@ func newBalancer(rebalance bool) *instance {
 		after: func() string {
 			if served.Load() != requests.Load() {
 				return fmt.Sprintf("%d requests issued with a stable member in the pool, handler invoked %d times", requests.Load(), served.Load())
+			}
+			if n := foreignRecords.Load(); rebalance && n > 0 {
+				return fmt.Sprintf("%d request outcomes were recorded on the meter of a server other than the one that served them", n)
 			}
 			// quiescent now: remove every optional server; the pool must then be exactly the stable members
 			for _, n := range serverNames {
